@@ -260,6 +260,12 @@ c05_env(T0N_CTXT *c)
 	c->trust_anchors = c05_ta;
 	c->trust_anchors_num = ND_U8() & 1;
 	if (ND_U8() & 1) { c->trust_anchor_dynamic = c05_dyn; } else { c->trust_anchor_dynamic = 0; }
+#ifdef C05_ONLY_STATIC_ANCHOR
+	c->trust_anchor_dynamic = 0;
+#endif
+#ifdef C05_ONLY_DYNAMIC_ANCHOR
+	c->trust_anchors_num = 0;
+#endif
 	if (ND_U8() & 1) { c->trust_anchor_dynamic_free = c05_dyn_free; } else { c->trust_anchor_dynamic_free = 0; }
 	c->trust_anchor_dynamic_ctx = 0;
 	if (ND_U8() & 1) { c->irsa = c05_irsa; } else { c->irsa = 0; }
